@@ -78,7 +78,11 @@ def make_texts(rng):
             pair = (base + "\nmodel CaseVariant Real qx; equation qx = 1; end CaseVariant;\n",
                     base + "\nmodel CaseVariant Real qX; equation qX = 1; end CaseVariant;\n")
         out += [(pair[0], True), (pair[1], True)]
-    valid = [t for t, _ in out]
+    if rng.random() < 0.15:
+        # a long chain of binary operators: a deep (left-leaning) expression tree
+        n = rng.choice([150, 250, 300, 350])
+        out.append(("model Deep%d\n  Real x;\nequation\n  x = %s;\nend Deep%d;\n" % (n, " + ".join(str(rng.randint(1, 9)) for _ in range(n)), n), True))
+    valid = [t for t, _ in out if not t.startswith("model Deep")]
     for i in range(rng.randint(1, 2)):
         t = rng.choice(valid)
         kind = rng.choice(["drop-semicolon", "unbalanced-end", "stray-character", "trailing-garbage"])
@@ -96,6 +100,20 @@ def make_texts(rng):
     return out
 
 
+def deep_digest(tree):
+    """canonical digest; the harness's own walk over a deep expression tree gets a recursion limit of its own (the
+    calls into pymoca run under the interpreter's normal limit)."""
+    try:
+        return canon.digest(tree)
+    except RecursionError:
+        old = sys.getrecursionlimit()
+        sys.setrecursionlimit(50000)
+        try:
+            return canon.digest(tree)
+        finally:
+            sys.setrecursionlimit(old)
+
+
 def txt_hash(t):
     return hashlib.sha256(t.encode("utf-8")).hexdigest()
 
@@ -110,7 +128,16 @@ class World:
         self.texts = make_texts(rng)
         self.ref = {}
         # validity is decided by the uncached parser itself, not by how the text was produced
-        self.texts = [(t, self.reference_of(t) is not None) for t, _ in self.texts]
+        usable = []
+        for t, _ in self.texts:
+            try:
+                usable.append((t, self.reference_of(t) is not None))
+            except RecursionError:
+                # too deep for the uncached parser itself: outside the comparison
+                ctx.discard("text-too-deep-for-the-uncached-parser")
+        self.texts = usable
+        if any(t.startswith("model Deep") for t, _ in usable):
+            ctx.cover("text:deep-expression-chain")
         for t, ok in self.texts:
             ctx.cover("text:valid" if ok else "text:syntax-error")
         self.clock = Clock()
@@ -130,7 +157,7 @@ class World:
     def reference_of(self, text):
         if text not in self.ref:
             t = self.parser().parse(text, bypass_cache=True)
-            self.ref[text] = None if t is None else canon.digest(t)
+            self.ref[text] = None if t is None else deep_digest(t)
         return self.ref[text]
 
     def reference(self, i):
@@ -154,7 +181,7 @@ class World:
             return ("parse-raises:%s" % exc_sig(e), "parse(text %d) raised %r" % (i, e))
         self.ctx.monitor("parse_results_compared")
         want = self.reference(i)
-        gd = None if got is None else canon.digest(got)
+        gd = None if got is None else deep_digest(got)
         if (gd is None) != (want is None):
             return ("returns-%s-for-%s-text" % ("none" if gd is None else "tree", "valid" if valid else "broken"),
                     "parse(text %d) returned %s, an uncached parse returns %s" % (i, "None" if gd is None else "a tree", "None" if want is None else "a tree"))
@@ -260,7 +287,7 @@ class World:
         """a row for text T under another version (or a deleted class of rows) holding the tree of T'."""
         if not os.path.exists(self.db) or self.file_corrupt:
             return
-        valid = [i for i, (t, ok) in enumerate(self.texts) if ok]
+        valid = [i for i, (t, ok) in enumerate(self.texts) if ok and not t.startswith("model Deep")]
         if len(valid) < 2:
             return
         i, j = self.r.sample(valid, 2)
